@@ -705,7 +705,7 @@ def scenario_one_shot(r):
     return " ".join((accs + "S 3 a 3 S 5 a 5 %s O 5 1 4001 M " % " ".join(script5) + " ".join(main)).split())
 
 
-SCENARIOS = [scenario_owner_sweep] * 6 + [scenario_slot_owns_signal] * 5 + [scenario_last_handle] * 3 + [scenario_blocked_transfers] * 3 + [scenario_deep_recursion]
+SCENARIOS = [scenario_owner_sweep] * 6 + [scenario_slot_owns_signal] * 5 + [scenario_one_shot] * 5 + [scenario_last_handle] * 3 + [scenario_blocked_transfers] * 3 + [scenario_deep_recursion]
 
 
 def scenarios(seed, count):
